@@ -165,6 +165,13 @@ def execute(cases, tier):
     crash_cases = []
     for row in rows:
         c, o, m = row["case"], row["out"], row["model"]
+        if o.get("update1") == ["hang"]:
+            # the harness isolated this case because the implementation did not return (endless loop): a verdict, not an unparseable input
+            cats["hung"] += 1
+            disagreements.append({"case": c, "impl": o.get("panic"), "model": None,
+                                  "spec": "contradicts L1 (C08_final: every parseable file is rewritten without a crash): update_test_file did not terminate within 20 s on this tree",
+                                  "broken": "corr_C08_update"})
+            continue
         if o["parse"][0] != "ok":
             cats["unparseable"] += 1
             continue
